@@ -80,19 +80,26 @@ func c14Norm(i c14IRI, checkScheme bool) string {
 	return b.String()
 }
 
+func c14Short(s string) string {
+	if len(s) > 24 {
+		return fmt.Sprintf("%s..%s(%d)", s[:6], s[len(s)-4:], len(s))
+	}
+	return s
+}
+
 func c14Sig(a, b c14IRI) string {
 	var parts []string
 	if a.scheme != b.scheme {
 		parts = append(parts, "scheme")
 	}
 	if a.host != b.host {
-		parts = append(parts, "host:"+a.host+"~"+b.host)
+		parts = append(parts, "host:"+c14Short(a.host)+"~"+c14Short(b.host))
 	}
 	if a.path != b.path {
-		parts = append(parts, "path:"+a.path+"~"+b.path)
+		parts = append(parts, "path:"+c14Short(a.path)+"~"+c14Short(b.path))
 	}
 	if a.query != b.query {
-		parts = append(parts, "query:"+a.query+"~"+b.query)
+		parts = append(parts, "query:"+c14Short(a.query)+"~"+c14Short(b.query))
 	}
 	if a.frag != b.frag {
 		parts = append(parts, "fragment")
@@ -110,14 +117,143 @@ func init() {
 			"compared with the reference normaliser; plus 42 non-URL strings (all ordered pairs among them and against the grid) for reflexivity/symmetry and list membership; non-trivial = pair of different presentations",
 		Assumptions: []string{"queries in one letter case (outside the stated domain otherwise)", "net/url parsing of the grid IRIs"},
 		Bound: func(tier string) string {
-			return "complete grid of 2304 IRIs: 5.3M ordered pairs x 2 scheme modes; 42 strings x (42 + 2304) pairs (same in both tiers)"
+			return "complete grid of 2304 IRIs: 5.3M ordered pairs x 2 scheme modes; query grid of 242 IRIs (every sequence of <= 4 parameters over x=1,x=2,y=2): 58k ordered pairs x 2 modes; membership in lists of 2..65 members (equivalent member first/last) over a 384-IRI sub-grid; scale grid of 1008 long IRIs (paths ending 64/300/1100 bytes in, queries of 17/33 parameters): 1.0M ordered pairs x 2 modes; 42 strings x (42 + 2304) pairs (same in both tiers)"
 		},
 		Run: c14Run,
 	})
 }
 
+// c14ScaleGrid is a second grid whose components are long: paths that end 64, 300 and 1100 bytes into the IRI and differ only in
+// their last byte, letter case or a trailing slash; queries of 17 and 33 parameters in two orders and with the last value changed.
+func c14ScaleGrid() []c14IRI {
+	q := func(n int, rev bool, changed bool) string {
+		ps := make([]string, n)
+		for i := range ps {
+			ps[i] = fmt.Sprintf("k%d=v%d", i, i)
+		}
+		if changed {
+			ps[n-1] = fmt.Sprintf("k%d=w", n-1)
+		}
+		if rev {
+			for i, j := 0, n-1; i < j; i, j = i+1, j-1 {
+				ps[i], ps[j] = ps[j], ps[i]
+			}
+		}
+		return "?" + strings.Join(ps, "&")
+	}
+	var paths []string
+	for _, L := range []int{50, 300, 1100} {
+		base := "/" + strings.Repeat("p", L)
+		paths = append(paths, base+"a", base+"b", base+"a/", strings.ToUpper(base)+"A")
+	}
+	queries := []string{"", q(17, false, false), q(17, true, false), q(17, false, true), q(33, false, false), q(33, true, false), q(33, true, true)}
+	var out []c14IRI
+	for _, s := range []string{"http", "https"} {
+		for _, h := range []string{"e.com", "E.COM", strings.Repeat("h", 60) + ".e.com"} {
+			for _, p := range paths {
+				for _, qq := range queries {
+					for _, f := range []string{"", "#f"} {
+						out = append(out, c14IRI{s, h, p, qq, f})
+					}
+				}
+			}
+		}
+	}
+	return out
+}
+
+// c14QueryGrid: every sequence of at most 4 parameters over {x=1, x=2, y=2} (all multisets in all orders) on two paths.
+func c14QueryGrid() []c14IRI {
+	pairs := []string{"x=1", "x=2", "y=2"}
+	var qs []string
+	var rec func(cur []string)
+	rec = func(cur []string) {
+		if len(cur) == 0 {
+			qs = append(qs, "")
+		} else {
+			qs = append(qs, "?"+strings.Join(cur, "&"))
+		}
+		if len(cur) == 4 {
+			return
+		}
+		for _, p := range pairs {
+			rec(append(append([]string{}, cur...), p))
+		}
+	}
+	rec(nil)
+	var out []c14IRI
+	for _, p := range []string{"/a", "/a/"} {
+		for _, q := range qs {
+			out = append(out, c14IRI{"https", "e.com", p, q, ""})
+		}
+	}
+	return out
+}
+
+// c14Lists: membership in lists of 1..65 members must agree with Equals whatever the length of the list and the position of the
+// equivalent member (a long list must not switch to a cheaper notion of sameness).
+func c14Lists(c *engine.Ctx) {
+	var sub []c14IRI
+	for _, s := range []string{"http", "HTTPS"} {
+		for _, h := range []string{"e.com", "E.COM", "e.com:8080"} {
+			for _, p := range c14Paths {
+				for _, q := range []string{"", "?x=1&y=2", "?y=2&x=1", "?x=2"} {
+					sub = append(sub, c14IRI{s, h, p, q, ""}, c14IRI{s, h, p, q, "#f"})
+				}
+			}
+		}
+	}
+	filler := func(n int) []ap.IRI {
+		out := make([]ap.IRI, n)
+		for i := range out {
+			out[i] = ap.IRI(fmt.Sprintf("https://filler.example/%d", i))
+		}
+		return out
+	}
+	sizes := []int{2, 16, 17, 32, 33, 64, 65}
+	for ai := range sub {
+		a := sub[ai]
+		c.Do("C14|contains|lists", func() string {
+			return fmt.Sprintf("needle %q against every member of the sub-grid placed first/last in lists of %v members", a, sizes)
+		}, func(t *engine.T) {
+			ia := ap.IRI(a.String())
+			for _, b := range sub {
+				ib := ap.IRI(b.String())
+				eq := ia.Equals(ib, false)
+				for _, n := range sizes {
+					for _, at := range []int{0, n - 1} {
+						l := filler(n)
+						l[at] = ib
+						iris := ap.IRIs(l)
+						items := make(ap.ItemCollection, n)
+						for i := range l {
+							items[i] = l[i]
+						}
+						if in := iris.Contains(ia); in != eq {
+							t.Fail(fmt.Sprintf("C14|contains|IRIs|len=%d|%s", n, c14Sig(a, b)), "IRIs of %d with %q at %d: Contains(%q) = %v but Equals = %v", n, string(ib), at, string(ia), in, eq)
+						}
+						if in := items.Contains(ia); in != eq {
+							t.Fail(fmt.Sprintf("C14|contains|ItemCollection|len=%d|%s", n, c14Sig(a, b)), "ItemCollection of %d with %q at %d: Contains(%q) = %v but Equals = %v", n, string(ib), at, string(ia), in, eq)
+						}
+					}
+				}
+			}
+			t.Ops(len(sub) * len(sizes) * 4)
+			t.AddEvals(int64(len(sub)*len(sizes)*2)-1, int64(len(sub)*len(sizes)*2)-1)
+			t.Distinct(true)
+		})
+	}
+}
+
 func c14Run(c *engine.Ctx) {
-	grid := c14Grid(c.Quick())
+	c14RunGrid(c, c14Grid(c.Quick()), "grid")
+	c14RunGrid(c, c14ScaleGrid(), "scale-grid")
+	c14RunGrid(c, c14QueryGrid(), "query-grid")
+	c14Lists(c)
+	c14RunStrings(c, c14Grid(c.Quick()))
+}
+
+func c14RunGrid(c *engine.Ctx, grid []c14IRI, label string) {
 	norms := [2][]string{}
 	for _, g := range grid {
 		norms[0] = append(norms[0], c14Norm(g, false))
@@ -129,7 +265,9 @@ func c14Run(c *engine.Ctx) {
 	}
 	for ai := range grid {
 		a := grid[ai]
-		c.Do("C14|equals|grid", func() string { return fmt.Sprintf("IRI %q against every IRI of the grid, both scheme modes", a) }, func(t *engine.T) {
+		c.Do("C14|equals|"+label, func() string {
+			return fmt.Sprintf("IRI %.120q against every IRI of the %s, both scheme modes", a, label)
+		}, func(t *engine.T) {
 			ia := iris[ai]
 			nontriv := int64(0)
 			for bi := range grid {
@@ -161,6 +299,13 @@ func c14Run(c *engine.Ctx) {
 		})
 	}
 	// arbitrary strings: reflexive, symmetric, IRIs membership agrees
+}
+
+func c14RunStrings(c *engine.Ctx, grid []c14IRI) {
+	iris := make([]ap.IRI, len(grid))
+	for k, g := range grid {
+		iris[k] = ap.IRI(g.String())
+	}
 	all := append([]ap.IRI{}, iris...)
 	for _, s := range c14Strings {
 		all = append(all, ap.IRI(s))
